@@ -17,7 +17,8 @@ fd:   B/<fpairs> first, then  Ms/<k>/<fv> Md/<k> Mi/<fpairs> Mu/<fpairs> Mf/<k>/
 
 Output: one record per token joined by `;`.  oto/m2m record: `<ret>|<reg0>|<reg1>…`
 (ret: R- | R<v> | R<k>:<v> | X<ExceptionClass>); every register is dumped after every command.
-m2m records end in `|V<0|1>S<0|1>`: the dump comes from the heap-level machine, V1 = the by-value machine agrees,
+m2m records end in `|V<0|1>S<0|1>`: the dump comes from the heap-level machine, V1 = the by-value machine holds the
+very same dicts (as lists, self-updates included) and returned the same,
 S1 = no set object is shared.
 -/
 namespace C17.Driver
@@ -158,7 +159,7 @@ def separated (st : HState Nat) : Bool :=
   all.eraseDups.length == all.length && all.all (· < st.heap.length)
 
 /-- every m2m history is run on BOTH machines: the heap-level one (set objects with identities, `Heap.lean`)
-    supplies the dump, `V1` says the by-value machine (`Model.lean`) shows exactly the same, `S1` that no set
+    supplies the dump, `V1` says the by-value machine (`Model.lean`) holds exactly the same lists, `S1` that no set
     object is referenced from two places -/
 def runM2M (toks : List String) : Option (List String) :=
   let rec go (regs : List (M2M Nat)) (hst : HState Nat) (toks : List String) (acc : List String) : Option (List String) :=
@@ -168,9 +169,11 @@ def runM2M (toks : List String) : Option (List String) :=
       | none => none
       | some c => match m2mCmd regs c, hm2mCmd hst c with
         | some (regs', ret), some (hst', hret) =>
-          let byValue := "|".intercalate (showRet ret :: regs'.map dumpM2M)
           let byRef := "|".intercalate (showRet hret :: hst'.abs.map dumpM2M)
-          go regs' hst' ts (s!"{byRef}|V{if byValue = byRef then 1 else 0}S{if separated hst' then 1 else 0}" :: acc)
+          -- V1: the by-value machine holds EXACTLY the same dicts (order included) and returned the same
+          -- (theorem `hm2m_refines`, self-updates included)
+          let agree := decide (regs' = hst'.abs) && showRet ret == showRet hret
+          go regs' hst' ts (s!"{byRef}|V{if agree then 1 else 0}S{if separated hst' then 1 else 0}" :: acc)
         | _, _ => none
   go [] HState.empty toks []
 
